@@ -106,6 +106,12 @@ CLAIMED["C07"] = ("4/C07", "format -> parse with symbolic formatting (the produc
                   "duration round-trip pattern (thorough); re-formatting every successfully parsed text of length <= 6 under delimited patterns.",
                   "invariant culture, ISO calendar only; the ~800 ICU cultures, text month/day names, eras and embedded patterns are outside the claim; "
                   "the digit-recomposition identity handed to the solver is an arithmetic fact (fmtint plug-in)")
+CLAIMED["C17"] = ("4/C17", "Built-in ISO patterns against a reference ISO-8601 extended-format writer: LocalDatePattern.iso for every date in years "
+                  "1..9999 (text equality and read-back), the extended and long ISO time patterns for every time of day (fraction without "
+                  "trailing zeros / exactly nine digits; fractional partitions in thorough), the general offset patterns for every offset "
+                  "(fixed two-digit fields, Z for zero), InstantPattern.extended_iso ending in Z (thorough). The reference writer's agreement "
+                  "with CPython's isoformat/fromisoformat is a labelled concrete premise.",
+                  "the standard library is represented by the reference writer (same family of technique cannot execute C isoformat symbolically)")
 NOT_BUILT = {}
 
 NA_REASON = "check not built yet in this round (design in DESIGN.md section 4); no claim is made"
